@@ -272,15 +272,15 @@ def parse_tla_tuple(s):
 
 
 def monitor(prop, trace_paths, workdir, workers_each=2, parallel=8, timeout=900, module="TraceMon",
-            extra_consts=""):
+            extra_consts="", macro_sep=True):
     """Runs the TLA+ monitor for `prop` on each trace file (several TLC processes in parallel).
     Returns dict(verdicts=[(id, clause, count, witness)], records=int, states, transitions, wall)."""
     import concurrent.futures as cf
 
     def one(i_path):
         i, path = i_path
-        cfg = ("SPECIFICATION Spec\nINVARIANT Monitor\nCONSTANTS\n  W = %d\n  PROP = \"%s\"\n%s"
-               "CHECK_DEADLOCK FALSE\n" % (workers_each, prop, extra_consts))
+        cfg = ("SPECIFICATION Spec\nINVARIANT Monitor\nCONSTANTS\n  W = %d\n  PROP = \"%s\"\n  MacroSepOn = %s\n%s"
+               "CHECK_DEADLOCK FALSE\n" % (workers_each, prop, "TRUE" if macro_sep else "FALSE", extra_consts))
         rc, out, wall = tlc(module, cfg, workdir, "mon-%s-%d" % (prop, i),
                             env_extra={"TRACE": path}, workers=workers_each, timeout=timeout)
         return path, rc, out, wall
